@@ -27,4 +27,27 @@ def cStartNext {σ : Type} (ops : Ops σ) (s : Sh σ) (tx : Int) (k : Sh σ → 
   | .error e => (s, .ret (.panic e))
   | .ok s1 => k s1
 
+/-! the statements of `startNext`, each with its partial case (a slice expression / an index out of range panics) -/
+
+/-- `s.scheds = s.scheds[1:]` -/
+def eShiftScheds {σ : Type} (s : Sh σ) : Except String (Sh σ) :=
+  match s.cs with
+  | [] => .error indexPanic
+  | _ :: r => .ok { s with cs := r }
+
+/-- `s.leftAfter = s.leftAfter[1:]` -/
+def eShiftLeftAfter {σ : Type} (s : Sh σ) : Except String (Sh σ) :=
+  match s.la with
+  | [] => .error indexPanic
+  | _ :: r => .ok { s with la := r }
+
+/-- `s.scheds[k].Start(t)` -/
+def eStartAt {σ : Type} (ops : Ops σ) (s : Sh σ) (k : Nat) (t : Int) : Except String (Sh σ) :=
+  match s.cs[k]? with
+  | none => .error indexPanic
+  | some c =>
+    match ops.start c t with
+    | .error e => .error e
+    | .ok c' => .ok { s with cs := s.cs.set k c' }
+
 end Pandora.Model.C02.Par
